@@ -13,6 +13,7 @@ import (
 	"bytes"
 	"context"
 	"encoding/base64"
+	"encoding/binary"
 	"encoding/json"
 	"errors"
 	"fmt"
@@ -108,6 +109,7 @@ type c10Env struct {
 	addrs  []hash.Hash
 	root   hash.Hash
 	prefix []byte // JSON prefix for current_case.json
+	skipped *int
 }
 
 func c10Mutate(orig []byte, off int, variant string) ([]byte, bool) {
@@ -341,7 +343,7 @@ func (e *c10Env) caseJSON(off int, variant string) []byte {
 }
 
 func c10NewEnv(c *c10Case, dir string) (*c10Env, error) {
-	e := &c10Env{c: c, dir: dir, files: map[string][]byte{}, model: map[hash.Hash][]byte{}, commit: map[hash.Hash]int{}}
+	e := &c10Env{c: c, dir: dir, files: map[string][]byte{}, model: map[hash.Hash][]byte{}, commit: map[hash.Hash]int{}, skipped: new(int)}
 	for name, b64 := range c.Files {
 		b, err := base64.StdEncoding.DecodeString(b64)
 		if err != nil {
@@ -428,11 +430,72 @@ func (e *c10Env) region(off int) (string, bool) {
 	return "?", false
 }
 
+// c10HugeRead reports whether the mutated file holds a record/span length field of 64 MiB or
+// more. The readers allocate make([]byte, length) straight from those unvalidated fields
+// (tableReader.get / readAtOffsetsWithCB, archiveReader.readByteSpan / iterate) before a short
+// read is noticed: executing such a variant costs gigabytes and many seconds, or ends in the Go
+// runtime's unrecoverable out-of-memory abort. They are counted, not executed.
+func (e *c10Env) c10HugeRead(mut []byte, variant string) bool {
+	const lim = 64 << 20
+	if variant == "trunc" {
+		return false
+	}
+	switch e.c.Kind {
+	case "table":
+		n := 0
+		for _, m := range e.c.Model {
+			if m.Commit == 0 {
+				n++
+			}
+		}
+		lens := len(mut) - footerSize - int(indexSize(uint32(n))) + int(lengthsOffset(uint32(n)))
+		if lens < 0 {
+			return false
+		}
+		for i := 0; i < n; i++ {
+			if binary.BigEndian.Uint32(mut[lens+4*i:]) >= lim {
+				return true
+			}
+		}
+	case "archive":
+		sz := uint64(len(mut))
+		if sz < archiveFooterSize {
+			return false
+		}
+		ftr, err := buildArchiveFooter(hash.Hash{}, sz, mut[sz-archiveFooterSize:])
+		if err != nil {
+			return false
+		}
+		span := ftr.indexByteOffsetSpan()
+		if span.offset > sz || span.length > sz || span.offset+span.length > sz {
+			return false
+		}
+		var prev uint64
+		for i := uint64(0); i+8 <= span.length; i += 8 {
+			v := binary.BigEndian.Uint64(mut[span.offset+i:])
+			if v-prev >= lim {
+				return true
+			}
+			prev = v
+		}
+	}
+	return false
+}
+
 // enumerate runs every variant of the current target.
 func (e *c10Env) enumerate(rt *rapid.T, t *testing.T, rec *vh.Recorder, id string) (violations int) {
 	orig := e.files[e.c.Target]
 	offs := make([]int, 0, len(orig))
-	if len(orig) <= 4096 {
+	if e.c.Kind == "journal" && !vh.Thorough() {
+		// opening a journal store costs 50-70 ms (it pre-sizes a 64k-entry range index): the quick
+		// tier enumerates every 6th offset plus the last 32 bytes, the thorough tier all of them
+		for i := range orig {
+			if i%6 == 0 || i >= len(orig)-32 {
+				offs = append(offs, i)
+			}
+		}
+		*e.skipped++
+	} else if len(orig) <= 4096 {
 		for i := range orig {
 			offs = append(offs, i)
 		}
@@ -458,9 +521,14 @@ func (e *c10Env) enumerate(rt *rapid.T, t *testing.T, rec *vh.Recorder, id strin
 			if !ok {
 				continue
 			}
+			region, nontrivial := e.region(off)
+			if e.c10HugeRead(mut, v) {
+				rec.Class(e.c.Kind+":skipped_length_field_over_64MiB", 1)
+				*e.skipped++
+				continue
+			}
 			_ = os.WriteFile("current_case.json", e.caseJSON(off, v), 0o644)
 			outcome, viol := e.runVariant(off, v, mut)
-			region, nontrivial := e.region(off)
 			rec.Case(fmt.Sprintf("%s %s off=%d/%d %s", id, e.c.Kind, off, len(orig), v), nontrivial, e.c.Kind+":"+outcome, e.c.Kind+":region="+region)
 			if outcome == "timeout" {
 				vh.Inconclusive(rt, "a read on a corrupted %s did not finish within 60s (off=%d %s)", e.c.Kind, off, v)
@@ -472,10 +540,10 @@ func (e *c10Env) enumerate(rt *rapid.T, t *testing.T, rec *vh.Recorder, id strin
 					continue
 				}
 				violations++
-				sig := e.c.Kind + ":" + outcome + ":" + c10TopFrame(viol)
+				sig := c10FindingID(e.c.Kind, outcome, viol)
 				if _, dup := c10Reported.LoadOrStore(sig, true); !dup {
 					vh.NoteViolation(t.Name(), "", string(e.caseJSON(off, v)))
-					t.Errorf("C10 %s %s off=%d variant=%s (region %s): %s", e.c.Kind, e.c.Target, off, v, region, viol)
+					t.Errorf("C10 finding-id=%s: %s %s off=%d variant=%s (region %s): %s", c10FindingID(e.c.Kind, outcome, viol), e.c.Kind, e.c.Target, off, v, region, viol)
 				}
 			}
 		}
@@ -507,22 +575,25 @@ func c10TopFrame(viol string) string {
 // violation.
 var c10KnownSeen sync.Map
 
-var c10Signatures = []struct{ id, kind, outcome, needle string }{
-	{"C10-table-index-ordinal-unchecked", "table", "panic", "onHeapTableIndex"},
-	{"C10-table-record-length-unchecked", "table", "panic", "NewCompressedChunk"},
-	{"C10-table-iterate-length-unchecked", "table", "panic", "iterateAllChunks"},
-	{"C10-manifest-root-parse-panics", "manifest", "panic", "hash.Parse"},
-	{"C10-manifest-root-unverified", "manifest", "wrong_root", ""},
-	{"C10-manifest-spec-unverified", "manifest", "silent_absent", ""},
-	{"C10-archive-index-unchecked", "archive", "panic", "archiveReader"},
-	{"C10-archive-mmap-unchecked", "archive", "panic", "mmapIndexReader"},
+// c10FindingID names a violation signature: file kind, outcome class and (for panics) the first
+// dolt frame of the recovered stack, e.g. C10-table-panic-nbs.onHeapTableIndex.entrySuffixMatches.
+// A signature listed in known_findings.json with status "open" is skipped and reported as
+// KNOWN-FINDING; everything else is a VIOLATION.
+func c10FindingID(kind, outcome, viol string) string {
+	id := "C10-" + kind + "-" + outcome
+	if f := c10TopFrame(viol); f != "" {
+		if i := strings.LastIndex(f, "/"); i >= 0 {
+			f = f[i+1:]
+		}
+		f = strings.NewReplacer("(", "", ")", "", "*", "").Replace(f)
+		id += "-" + f
+	}
+	return id
 }
 
 func c10Known(kind, outcome, viol string) string {
-	for _, s := range c10Signatures {
-		if s.kind == kind && s.outcome == outcome && (s.needle == "" || strings.Contains(viol, s.needle)) && vh.OpenFinding("C10", s.id) {
-			return s.id
-		}
+	if id := c10FindingID(kind, outcome, viol); vh.OpenFinding("C10", id) {
+		return id
 	}
 	return ""
 }
@@ -757,6 +828,7 @@ var c10Assumptions = []string{
 	"IterateAllChunks reports (index address, content) pairs for integrity checkers to verify; a pair under a never-stored address is not counted, wrong bytes under a stored address are",
 	"journal: a corruption at offset o may only lose commits whose records end after o (torn-tail semantics, C03); losing an earlier acknowledged commit without an error is a violation",
 	"chunk payloads are cut to <= 40 bytes so that exhaustive enumeration is dominated by structure bytes",
+	"variants that put a value >= 64 MiB into a table-index length entry or an archive span-index delta are counted (class skipped_length_field_over_64MiB) but not executed: the readers allocate make([]byte, length) from those unvalidated fields, which costs gigabytes per read or aborts the Go runtime (out of memory) — reported separately as a finding candidate from reading the code",
 }
 
 // c10Run is the body shared by the four per-file-kind tests.
@@ -811,11 +883,14 @@ func c10Run(t *testing.T, kind string, quick, thorough int) {
 		}
 		t0 := time.Now()
 		total += e.enumerate(rt, t, rec, c10Digest(c))
+		if *e.skipped > 0 {
+			exhaustive = false
+		}
 		t.Logf("%s: %d bytes enumerated in %v", kind, len(e.files[c.Target]), time.Since(t0))
 	})
 	rec.Exhaustive(exhaustive)
 	c10KnownSeen.Range(func(k, v any) bool {
-		if strings.HasPrefix(k.(string), "C10-"+kind) {
+		if strings.HasPrefix(k.(string), "C10-"+kind+"-") {
 			vh.ReportKnown("C10", k.(string), strings.SplitN(v.(string), "\n", 2)[0])
 		}
 		return true
